@@ -2,7 +2,7 @@
 # run the repository's suite with the guard off and compare against the pinned baseline
 # (486 stable passes; 7 pre-existing failures)
 cd /repo || exit 2
-out=$(/venv/bin/python -m pytest -q -p no:cacheprovider --timeout=900 -q 2>&1 | grep -E "^(FAILED|ERROR)|passed|failed" )
+out=$(/venv/bin/python -m pytest -q -p no:cacheprovider --timeout=900 2>&1 | grep -E "^(FAILED|ERROR)|passed|failed" )
 echo "$out" | tail -12
 n=$(echo "$out" | grep -cE "^(FAILED|ERROR)")
 echo "$out" | grep -q "486 passed" && [ "$n" = "7" ] && echo BASELINE-OK && exit 0
